@@ -476,13 +476,13 @@ class SBytes(SSeq):
             return _bytes(self.items).decode(encoding, errors)
         if enc in ("latin-1", "latin1", "iso-8859-1", "l1"):
             return SStr(self.items)
-        if enc in ("utf-8", "utf8", "ascii", "us-ascii"):
+        if enc in ("ascii", "us-ascii"):
             for pos, c in enumerate(self.items):
                 if not in_range(c, 0, 127):
-                    if enc.startswith("utf"):
-                        raise cur()._raise(Unsupported("utf-8 decoding of symbolic non-ASCII bytes"))
                     raise UnicodeDecodeError("ascii", b"\xff", 0, 1, "ordinal not in range(128)")
             return SStr(self.items)
+        if enc in ("utf-8", "utf8", "u8", "utf"):
+            return SStr(_utf8_decode(self.items, errors))
         import codecs
         codecs.lookup(encoding)  # LookupError as the real thing
         raise cur()._raise(Unsupported(f"decode({encoding}) of symbolic bytes"))
@@ -610,6 +610,68 @@ class SStr(SSeq):
 
     def format_map(self, *a, **k):
         return self.real().format_map(*a, **k)
+
+
+def _utf8_decode(items, errors="strict"):
+    """exact UTF-8 decoding of a byte item list; forks on the class of every symbolic byte; code points are computed terms"""
+    out: List[Any] = []
+    i = 0
+    n = len(items)
+
+    class _Replace(Exception):
+        pass
+
+    def bad(pos):
+        if errors == "strict":
+            raise UnicodeDecodeError("utf-8", b"\xff", 0, 1, "invalid start byte / continuation")
+        if errors == "replace":
+            raise _Replace()
+        if errors == "ignore":
+            raise _Replace()
+        raise cur()._raise(Unsupported(f"utf-8 decoding with errors={errors!r} of invalid symbolic bytes"))
+
+    def cont(pos, lo=0x80, hi=0xBF):
+        return pos < n and bool(in_range(items[pos], lo, hi))
+
+    while i < n:
+        try:
+            i = _utf8_step(items, i, n, out, cont, bad)
+        except _Replace:
+            # approximation of CPython's maximal-subpart rule: one U+FFFD for the offending byte, resume at the next byte
+            if errors == "replace":
+                out.append(0xFFFD)
+            i += 1
+    return out
+
+
+def _utf8_step(items, i, n, out, cont, bad):
+    if True:
+        b0 = items[i]
+        if in_range(b0, 0, 0x7F):
+            out.append(b0)
+            i += 1
+        elif in_range(b0, 0xC2, 0xDF):
+            if not cont(i + 1):
+                bad(i)
+            out.append(lift(b0 - 0xC0) * 64 + (lift(items[i + 1]) - 0x80) if True else None)
+            i += 2
+        elif in_range(b0, 0xE0, 0xEF):
+            lo2 = 0xA0 if bool(item_eq(b0, 0xE0)) else 0x80
+            hi2 = 0x9F if bool(item_eq(b0, 0xED)) else 0xBF
+            if not cont(i + 1, lo2, hi2) or not cont(i + 2):
+                bad(i)
+            out.append(lift(b0 - 0xE0) * 4096 + (lift(items[i + 1]) - 0x80) * 64 + (lift(items[i + 2]) - 0x80))
+            i += 3
+        elif in_range(b0, 0xF0, 0xF4):
+            lo2 = 0x90 if bool(item_eq(b0, 0xF0)) else 0x80
+            hi2 = 0x8F if bool(item_eq(b0, 0xF4)) else 0xBF
+            if not cont(i + 1, lo2, hi2) or not cont(i + 2) or not cont(i + 3):
+                bad(i)
+            out.append(lift(b0 - 0xF0) * 262144 + (lift(items[i + 1]) - 0x80) * 4096 + (lift(items[i + 2]) - 0x80) * 64 + (lift(items[i + 3]) - 0x80))
+            i += 4
+        else:
+            bad(i)
+    return i
 
 
 def _splitlines(seq: SSeq, seps, keepends: bool):
